@@ -268,14 +268,163 @@ pub proof fn lemma_algorithm_ext(a: Algorithm, b: Algorithm)
 }
 
 // ---------------------------------------------------------------- strings.rs: QuotedString (RFC 3261 quoted-string / qdtext)
-// The grammar check (crate quoted_string_parser) and the trimming helpers (char iterators with rev/enumerate) are outside
-// the verifier's dialect: `formatted_quoted_string_from` is trusted with an uninterpreted meaning. Everything around it is verified.
-pub uninterp spec fn qs_valid(s: Seq<char>) -> bool;
-pub uninterp spec fn qs_trim(s: Seq<char>) -> Seq<char>;
+// The grammar check (crate quoted_string_parser) is trusted with an uninterpreted meaning (qs_valid). The trimming is verified:
+// is_removable_character and formatted_quoted_string_from are the real bodies; the two char-iterator scans
+// (skip_starting_characteres / skip_trailing_characteres: `text.chars()[.rev()].enumerate()` loops) are declared with their meaning,
+// and the two `&s[a..]` / `&s[..b]` string slicings go through wrappers that *require* the index to be a character boundary (the
+// std panic condition) - proving that requirement from "the skipped characters are ASCII" is the point of this block.
+pub uninterp spec fn qs_parse(level: QuotedStringParseLevel, s: Seq<char>) -> bool;    // crate quoted_string_parser
+pub open spec fn qs_valid(s: Seq<char>) -> bool { qs_parse(QuotedStringParseLevel::QuotedText, s) || qs_parse(QuotedStringParseLevel::QuotedString, s) }
+pub mod vx_trim {
+    use super::*;
+    use vstd::utf8::*;
+pub open spec fn removable(c: char) -> bool { c as u32 == 0x0d || c as u32 == 0x0a || c as u32 == 0x20 || c as u32 == 0x09 || c as u32 == 0x22 }
+pub open spec fn lead(cs: Seq<char>) -> int decreases cs.len() { if cs.len() == 0 || !removable(cs[0]) { 0 } else { 1 + lead(cs.subrange(1, cs.len() as int)) } }
+pub open spec fn trail(cs: Seq<char>) -> int decreases cs.len() { if cs.len() == 0 || !removable(cs.last()) { 0 } else { 1 + trail(cs.drop_last()) } }
+pub proof fn lemma_lead(cs: Seq<char>)
+    ensures 0 <= lead(cs) <= cs.len(), forall|i: int| 0 <= i < lead(cs) ==> removable(cs[i]), lead(cs) < cs.len() ==> !removable(cs[lead(cs)]),
+    decreases cs.len(),
+{
+    if cs.len() > 0 && removable(cs[0]) {
+        let t = cs.subrange(1, cs.len() as int);
+        lemma_lead(t);
+        assert forall|i: int| 0 <= i < lead(cs) implies removable(cs[i]) by { if i > 0 { assert(cs[i] == t[i - 1]); } }
+        if lead(cs) < cs.len() { assert(cs[lead(cs)] == t[lead(t)]); }
+    }
+}
+pub proof fn lemma_trail(cs: Seq<char>)
+    ensures 0 <= trail(cs) <= cs.len(), forall|i: int| cs.len() - trail(cs) <= i < cs.len() ==> removable(cs[i]),
+        trail(cs) < cs.len() ==> !removable(cs[cs.len() - trail(cs) - 1]),
+    decreases cs.len(),
+{
+    if cs.len() > 0 && removable(cs.last()) {
+        let t = cs.drop_last();
+        lemma_trail(t);
+        assert forall|i: int| cs.len() - trail(cs) <= i < cs.len() implies removable(cs[i]) by { if i < cs.len() - 1 { assert(cs[i] == t[i]); } }
+        if trail(cs) < cs.len() { assert(cs[cs.len() - trail(cs) - 1] == t[t.len() - trail(t) - 1]); }
+    }
+}
+// the encoding of a string whose first n characters are ASCII: n bytes, then the encoding of the rest; byte n is a boundary
+pub proof fn lemma_ascii_prefix(cs: Seq<char>, n: int)
+    requires 0 <= n <= cs.len(), forall|i: int| 0 <= i < n ==> (cs[i] as u32) < 128,
+    ensures encode_utf8(cs.subrange(0, n)).len() == n,
+        encode_utf8(cs) == encode_utf8(cs.subrange(0, n)) + encode_utf8(cs.subrange(n, cs.len() as int)),
+        is_char_boundary(encode_utf8(cs), n),
+{
+    let a = cs.subrange(0, n);
+    let b = cs.subrange(n, cs.len() as int);
+    assert(a + b =~= cs);
+    encode_utf8_concat(a, b);
+    is_ascii_chars_encode_utf8(a);
+    lemma_boundary(a, b);
+}
+pub proof fn lemma_ascii_suffix(cs: Seq<char>, n: int)
+    requires 0 <= n <= cs.len(), forall|i: int| cs.len() - n <= i < cs.len() ==> (cs[i] as u32) < 128,
+    ensures encode_utf8(cs.subrange(cs.len() - n, cs.len() as int)).len() == n,
+        encode_utf8(cs) == encode_utf8(cs.subrange(0, cs.len() - n)) + encode_utf8(cs.subrange(cs.len() - n, cs.len() as int)),
+        is_char_boundary(encode_utf8(cs), encode_utf8(cs).len() - n),
+{
+    let a = cs.subrange(0, cs.len() - n);
+    let b = cs.subrange(cs.len() - n, cs.len() as int);
+    assert(a + b =~= cs);
+    encode_utf8_concat(a, b);
+    is_ascii_chars_encode_utf8(b);
+    lemma_boundary(a, b);
+}
+pub proof fn lemma_boundary(a: Seq<char>, b: Seq<char>) ensures is_char_boundary(encode_utf8(a + b), encode_utf8(a).len() as int) {
+    encode_utf8_concat(a, b);
+    encode_utf8_valid_utf8(a + b);
+    encode_utf8_valid_utf8(b);
+    let bytes = encode_utf8(a + b);
+    let k = encode_utf8(a).len() as int;
+    if k == bytes.len() {
+        is_char_boundary_start_end_of_seq(bytes);
+    } else {
+        is_char_boundary_iff_is_leading_byte(bytes, k);
+        assert(b.len() > 0) by { if b.len() == 0 { assert(a + b =~= a); } }
+        encode_utf8_first_scalar(b);
+        is_char_boundary_start_end_of_seq(encode_utf8(b));
+        is_char_boundary_iff_is_leading_byte(encode_utf8(b), 0);
+        assert(bytes[k] == encode_utf8(b)[0]);
+    }
+}
+} // mod vx_trim
+pub use vx_trim::*;
+// what remains after stripping leading and trailing CR / LF / SP / HTAB / DQUOTE
+pub open spec fn qs_trim(cs: Seq<char>) -> Seq<char> {
+    if lead(cs) == cs.len() { Seq::<char>::empty() } else {
+        let b = cs.subrange(lead(cs), cs.len() as int);
+        b.subrange(0, b.len() - trail(b))
+    }
+}
+pub struct QuotedStringParser;
+pub enum QuotedStringParseLevel { QuotedText, QuotedString }
+impl QuotedStringParser {
+    #[verifier::external_body]
+    pub fn validate(level: QuotedStringParseLevel, s: &str) -> (r: bool) ensures r == qs_parse(level, s@) { unimplemented!() }
+}
+//@item stun_rs :: mod strings > fn is_removable_character
+//@tags C03 C19
+//@spec
+    ensures r == removable(c),
+//@end
 #[verifier::external_body]
-pub fn formatted_quoted_string_from(s: &str) -> (r: Result<&str, StunError>)
-    ensures r is Ok <==> qs_valid(s@), r is Ok ==> r->Ok_0@ == qs_trim(s@),
+pub fn skip_starting_characteres(text: &str) -> (r: Option<usize>)
+    ensures match r { None => lead(text@) == text@.len(), Some(p) => p as int == lead(text@) && lead(text@) < text@.len() },
 { unimplemented!() }
+#[verifier::external_body]
+pub fn skip_trailing_characteres(text: &str) -> (r: Option<usize>)
+    ensures match r { None => trail(text@) == text@.len(), Some(p) => p as int == trail(text@) && trail(text@) < text@.len() },
+{ unimplemented!() }
+// str slicing (`&s[a..]`, `&s[..b]`, `&s[0..0]`): panics unless the index is on a character boundary and in range (std)
+#[verifier::external_body]
+pub fn vx_str_from(s: &str, a: usize) -> (r: &str)
+    requires a <= s.spec_bytes().len(), vstd::utf8::is_char_boundary(s.spec_bytes(), a as int),
+    ensures r.spec_bytes() == s.spec_bytes().subrange(a as int, s.spec_bytes().len() as int),
+{ &s[a..] }
+#[verifier::external_body]
+pub fn vx_str_to(s: &str, b: usize) -> (r: &str)
+    requires b <= s.spec_bytes().len(), vstd::utf8::is_char_boundary(s.spec_bytes(), b as int),
+    ensures r.spec_bytes() == s.spec_bytes().subrange(0, b as int),
+{ &s[..b] }
+#[verifier::external_body]
+pub fn vx_str_empty(s: &str) -> (r: &str) ensures r@ == Seq::<char>::empty() { &s[0..0] }
+//@item stun_rs :: mod strings > fn formatted_quoted_string_from
+//@tags C03 C19 C01
+//@sub "&s[pos..]" => "vx_str_from(s, pos)"
+//@sub "&s[0..0]" => "vx_str_empty(s)"
+//@sub "&s[..s.len() - pos]" => "vx_str_to(s, vx_str_len(s) - pos)"
+//@spec
+    ensures r is Ok <==> qs_valid(s@), r is Ok ==> r->Ok_0@ == qs_trim(s@),
+//@head
+    let ghost cs0 = s@;
+    proof {
+        // the skipped characters are ASCII, so their number is a byte offset on a character boundary
+        lemma_lead(cs0);
+        lemma_ascii_prefix(cs0, lead(cs0));
+        assert(s.spec_bytes() == vstd::utf8::encode_utf8(cs0));
+    }
+    let ghost bytes0 = s.spec_bytes();
+//@stmt "let mut res = s;"
+    let ghost b = cs0.subrange(lead(cs0), cs0.len() as int);
+    proof {
+        assert(s.spec_bytes() == bytes0.subrange(lead(cs0), bytes0.len() as int));
+        assert(bytes0 == vstd::utf8::encode_utf8(cs0.subrange(0, lead(cs0))) + vstd::utf8::encode_utf8(b));
+        assert(s.spec_bytes() =~= vstd::utf8::encode_utf8(b));
+        lemma_utf8_injective(s@, b);
+        lemma_trail(b);
+        lemma_ascii_suffix(b, trail(b));
+        // b starts with a character that is not removable, so not all of b is stripped
+        assert(!removable(b[0]));
+        assert(trail(b) < b.len());
+    }
+//@stmt "Ok(res)"
+    proof {
+        let t = b.subrange(0, b.len() - trail(b));
+        assert(res.spec_bytes() =~= vstd::utf8::encode_utf8(t));
+        lemma_utf8_injective(res@, t);
+    }
+//@end
 //@item! stun_rs :: mod strings > struct QuotedString
 impl QuotedString {
 //@item stun_rs :: mod strings > impl QuotedString > fn new
